@@ -12,7 +12,7 @@ import copy
 from fractions import Fraction as _Fraction
 
 from .absval import (AIter, RepList, ASuper, Lin, Sym, Opaque, Ch, Run, Rep, AbsStr, AObj, AFunc, AModule, AClass, ABuiltin,
-                     ABound, simplify_str, INF)
+                     ABound, simplify_str, INF, UnknownStr)
 from .loader import AnalysisError, norm, short, FuncInfo
 
 
@@ -146,6 +146,7 @@ class Interp:
         self.inline = inline
         self.max_depth = max_depth
         self.max_iter = max_iter
+        self.allow_uninterpreted = False
         self.depth = 0
         self.refine = {}  # Lin shape -> (lo, hi) for the non-constant part
         self.mods = {}
@@ -164,6 +165,16 @@ class Interp:
 
     # ------------------------------------------------------------------ utils
     def fork(self, label):
+        return self.chooser.choose(label)
+
+    def opaque_fork(self, label, *vals):
+        """Fork on an unknown value -- unless the value is the result of a call the interpreter could not model:
+        that result is a definite function of its arguments, and exploring both answers would judge the code on
+        behaviours it does not have (a false alarm on, say, a correct regular expression)."""
+        for v in vals:
+            u = _uninterpreted(v)
+            if u is not None and not self.allow_uninterpreted:
+                raise CannotDecide("the outcome of `%s` depends on %s, which the analysis does not model" % (label, u.tag))
         return self.chooser.choose(label)
 
     def resolve(self, lin, _d=0):
@@ -353,7 +364,7 @@ class Interp:
         if isinstance(v, Opaque) and getattr(v, "nonnull", False):
             return True
         if isinstance(v, Opaque):
-            return self.fork("truth(%s)" % (short(node) if node is not None else v.tag))
+            return self.opaque_fork("truth(%s)" % (short(node) if node is not None else v.tag), v)
         raise CannotDecide("truth of %r" % (v,))
 
     # ------------------------------------------------------------------ names
@@ -652,7 +663,7 @@ class Interp:
             if a is None or b is None:
                 r = (a is None and b is None)
                 if (isinstance(a, Opaque) or isinstance(b, Opaque)) and not (getattr(a, "nonnull", False) or getattr(b, "nonnull", False)):
-                    r = self.fork("is None: %s" % short(node))
+                    r = self.opaque_fork("is None: %s" % short(node), a, b)
                 return r if op is ast.Is else not r
             r = a is b
             return r if op is ast.Is else not r
@@ -671,7 +682,7 @@ class Interp:
             r = self.equal(a, b, node)
             return r if op is ast.Eq else not r
         if isinstance(a, Opaque) or isinstance(b, Opaque):
-            return self.fork("cmp: %s" % short(node))
+            return self.opaque_fork("cmp: %s" % short(node), a, b)
         raise CannotDecide("compare %s on %r, %r" % (op.__name__, a, b))
 
     def equal(self, a, b, node=None):
@@ -713,6 +724,8 @@ class Interp:
                         res = False
                         break
                 return res
+            if any(isinstance(u, UnknownStr) for u in ua + ub):
+                return self.fork("eq-unknown-string: %s" % (short(node) if node is not None else "?"))
             if isinstance(b, str) or (isinstance(b, AbsStr) and b.is_concrete()):
                 m = self._match_str(self.norm_str(_as_absstr(a)), b if isinstance(b, str) else b.concrete())
                 if m is not None:
@@ -731,7 +744,7 @@ class Interp:
                 return False
             return all(self.equal(x, y, node) for x, y in zip(a, b))
         if isinstance(a, Opaque) or isinstance(b, Opaque):
-            return self.fork("eq: %s" % (short(node) if node is not None else "?"))
+            return self.opaque_fork("eq: %s" % (short(node) if node is not None else "?"), a, b)
         if isinstance(a, (AObj, AFunc)) or isinstance(b, (AObj, AFunc)):
             return a is b
         return False if type(a) is not type(b) else (a == b)
@@ -860,6 +873,14 @@ class Interp:
         fixed = sum(1 for x in u if isinstance(x, (str, Ch)))
         if fixed > len(k):
             return False
+        if fixed == len(k) and len(pre) + len(post) == fixed and all(isinstance(u[i], Run) for i in flex) \
+                and all(unit_match(x, c) is True for x, c in zip(pre + post, k)):
+            # every character of k is accounted for by the fixed pieces: equal iff all runs are empty
+            total = Lin({}, 0)
+            for i in flex:
+                for sy in u[i].count.values():
+                    total = total + Lin.of(sy)
+            return self.compare_lin(ast.Eq, total, 0)
         for x, c in zip(pre, k):
             if unit_match(x, c) is False:
                 return False
@@ -997,6 +1018,12 @@ class Interp:
             if cut_lo is not None and (hi is None or cut_hi is not None):
                 u = self._split_units(v)
                 return simplify_str(AbsStr(u[cut_lo:cut_hi]))
+            if cut_lo is None and hi is None:
+                # the start is a length unrelated to this string's own pieces: case split on where it falls
+                cut_lo = self._cut(v, lo, fork=True)
+                if cut_lo is not None:
+                    return simplify_str(AbsStr(self._split_units(v)[cut_lo:]))
+                return AbsStr([UnknownStr("tail of %s from %s" % (short(repr(v), 40), lo))])
             raise CannotDecide("slice [%r:%r] of %r" % (lo, hi, v))
         if isinstance(v, Opaque):
             return Opaque("slice", [v])
@@ -1005,8 +1032,9 @@ class Interp:
     def _split_units(self, v):
         return v.units()
 
-    def _cut(self, v, pos):
-        """Index into v.units() at which the prefix has length ``pos`` (int or Lin), or None."""
+    def _cut(self, v, pos, fork=False):
+        """Index into v.units() at which the prefix has length ``pos`` (int or Lin), or None.
+        With fork=True an undetermined ``pos == boundary`` question is split into two paths."""
         u = v.units()
         total = Lin({}, 0)
         want = Lin.of(pos)
@@ -1014,6 +1042,9 @@ class Interp:
             lo, hi = self.lin_interval(want - total)
             if lo == hi == 0:
                 return i
+            if fork and lo <= 0 <= hi and (i == len(u) or not isinstance(u[i], Run) or i == 0 or not isinstance(u[i - 1], Run)):
+                if self.compare_lin(ast.Eq, want, total):
+                    return i
             if i == len(u):
                 break
             a = u[i]
@@ -1083,6 +1114,11 @@ class Interp:
                     return self.eval(c.attrs[name], Frame(None, {}, mod=c.module))
         if isinstance(v, ABuiltin) and v.name == "ext:os" and name == "linesep":
             return "\n"
+        if isinstance(v, ABuiltin) and v.name == "ext:re":
+            from . import regexdom
+            r = regexdom.attribute(name)
+            if r is not NotImplemented:
+                return r
         if isinstance(v, ABuiltin) and v.name.startswith("ext:"):
             return ABuiltin(v.name + "." + name)
         if isinstance(v, ABuiltin) and v.name == "str" and name in ("lower", "upper"):
@@ -1433,6 +1469,11 @@ class Interp:
             args = [self.iterate(a, node) if (isinstance(a, AObj) and a.cls is not None and (self.repo.find_method(a.cls, "__getitem__") or self.repo.find_method(a.cls, "__iter__"))) else a for a in args]
         if name == "object.__init__":
             return None
+        if name.startswith("ext:re."):
+            from . import regexdom
+            r = regexdom.builtin(self, name, args, kwargs, node)
+            if r is not NotImplemented:
+                return r
         if name in ("ext:six.iteritems", "iteritems") and args and isinstance(args[0], dict):
             return [tuple(kv) for kv in args[0].items()]
         if name in ("ext:six.itervalues", "itervalues") and args and isinstance(args[0], dict):
@@ -1987,6 +2028,17 @@ _BUILTINS = {"len", "range", "list", "tuple", "dict", "set", "sorted", "reversed
 
 
 _GEN_CACHE = {}
+
+
+def _uninterpreted(v, _d=0):
+    if isinstance(v, Opaque) and _d < 6:
+        if v.tag.startswith("builtin:") and not getattr(v, "nonnull", False):
+            return v
+        for d in v.deps:
+            u = _uninterpreted(d, _d + 1)
+            if u is not None:
+                return u
+    return None
 
 
 def _is_generator(fi):
